@@ -10,7 +10,7 @@ import time
 from .extract import Undecided
 from .assemble import VERIF, REPO
 
-BUILD = os.path.join(VERIF, 'build')
+BUILD = os.environ.get('VERIF_BUILD') or os.path.join(VERIF, 'build')
 REPLAYS = os.path.join(VERIF, 'replays')
 
 
